@@ -171,7 +171,46 @@ Fixpoint run_tb (t : toolbox) (ops : list tbop) : bool :=
       end
   end.
 
+(* ---- the vocabulary of the theorems, evaluated on real graphs ---- *)
+Fixpoint tree_eqb (a b : tree) : bool :=
+  match a, b with
+  | TAtom x, TAtom y => Z.eqb x y
+  | TBType x, TBType y => Nat.eqb x y
+  | TLoc x, TLoc y => Nat.eqb x y
+  | TCut, TCut => true
+  | TDangling, TDangling => true
+  | TNode k c its ats, TNode k' c' its' ats' =>
+      kind_eqb k k' && tree_eqb c c' &&
+      (fix go (l l' : list tree) : bool :=
+         match l, l' with
+         | [], [] => true
+         | x :: r, y :: r' => tree_eqb x y && go r r'
+         | _, _ => false
+         end) its its' &&
+      (fix go (l l' : list (nat * tree)) : bool :=
+         match l, l' with
+         | [], [] => true
+         | (n, x) :: r, (m, y) :: r' => Nat.eqb n m && tree_eqb x y && go r r'
+         | _, _ => false
+         end) ats ats'
+  | _, _ => false
+  end.
+
+Definition TA (z : Z) : tree := TAtom z.
+Definition TB (b : nat) : tree := TBType b.
+Definition TL (l : nat) : tree := TLoc l.
+Definition kind_of_nat (k : nat) : kind :=
+  match k with
+  | 0 => KClass | 1 => KList | 2 => KArray | 3 => KNdarray | 4 => KSet | 5 => KDict | 6 => KTree
+  | 7 => KFit | 8 => KCFit | 9 => KPyList | 10 => KPyDict | 11 => KPySet | _ => KBuf
+  end.
+Definition TN (k : nat) (c : tree) (its : list tree) (ats : list (nat * tree)) : tree :=
+  TNode (kind_of_nat k) c its ats.
+Definition TP (n : nat) (t : tree) : nat * tree := (n, t).
+
 Inductive case :=
+| CUnfold (h : heap) (v : value) (k : nat) (stop_class : bool) (obs : tree)
+     (* obs: what the harness read from the real object down to depth k (classes not entered / entered) *)
 | CRun (wf : bool) (h0 : heap) (roots : list value) (steps : list (op * option dsc))
 | CFresh (h : heap) (root : value) (obs : option desc)   (* description made by a fresh interpreter after
                                                           unpickling; None: it is exactly (h, [root]) *)
@@ -179,6 +218,7 @@ Inductive case :=
 
 Definition check (c : case) : bool :=
   match c with
+  | CUnfold h v k sc obs => tree_eqb (unfold (if sc then is_class else no_stop) k h v) obs
   | CRun wf h0 roots steps =>
       (* the hypotheses of the theorems hold of the real graph (wf = false only when the harness stored an
          attribute on a fitness object); the initial description is canonical: describing it again changes
